@@ -128,6 +128,12 @@ impl FromStr for Fen {
         #[allow(clippy::unwrap_used)]
         Self::validate_ranks(group_to_slice(1).map(|range| &fen[range.start..range.end]).unwrap())?;
 
+        for clock in [group_to_slice(5), group_to_slice(6)].into_iter().flatten() {
+            if fen[clock].parse::<u32>().is_err() {
+                return Err(InvalidCapture(fen));
+            }
+        }
+
         Ok(
             #[allow(clippy::unwrap_used)]
             Self {
